@@ -22,7 +22,7 @@ open Conv
 open Dcommon
 
 (* ---------- reporting: per (kind, tag) limits, own counters ---------- *)
-let per_tag_limit = 12
+let per_tag_limit = try int_of_string (Sys.getenv "STEP_LIMIT") with _ -> 12
 let tag_counts : (string, int) Hashtbl.t = Hashtbl.create 17
 let kind_counts : (string, int) Hashtbl.t = Hashtbl.create 7
 let bump h k = Hashtbl.replace h k (1 + try Hashtbl.find h k with Not_found -> 0)
@@ -166,6 +166,10 @@ let corr tag text =
 
 let flush_run () =
   if r.active then begin
+    (* an HFAIL line of the harness that the driver's own oracle of the same property confirms is not repeated *)
+    let is_h (_, _, text) = String.length text >= 8 && String.sub text 0 8 = "harness:" in
+    let own = List.filter (fun m -> not (is_h m)) r.msgs in
+    r.msgs <- List.filter (fun ((k, tag, _) as m) -> not (is_h m) || not (List.exists (fun (k', tag', _) -> k' = k && tag' = tag) own)) r.msgs;
     List.iter
       (fun (kind, tag, text) ->
         emit kind tag (Printf.sprintf "scenario=%s cfg=%s run=%s mode=%s %s sched=%s" r.scenario r.cfg r.id r.mode text r.sched))
@@ -452,10 +456,20 @@ let snap_checks rest inflight mem : (string * string * string) list =
   for i = r.nframes - 1 downto 0 do
     if alloc.(i) && not owned.(i) then leaked := i :: !leaked
   done;
-  if not (cover !leaked !gets) then
+  if not (cover !leaked !gets) then begin
+    (* the one known way to get here: an in-flight free of part of a huge frame that read a stale marker
+       fills rows of that huge frame which a concurrent free has already released *)
+    let ho = int_of_nat r.g.hord in
+    let split_h = ref [] in
+    let see = function IPut (f, o) when o < ho -> split_h := (f / r.hf) :: !split_h | _ -> () in
+    Array.iter (function Some c -> see c | None -> ()) r.cur;
+    List.iter see r.limbo;
+    let inside = List.for_all (fun x -> List.mem (x / r.hf) !split_h) !leaked in
     add "ORACLE" "[C05]"
-      (Printf.sprintf "%s: %d frames that were free and untouched are allocated after recovery (first: %d)" where (List.length !leaked)
-         (List.hd !leaked));
+      (Printf.sprintf "%s: %d frames that were free and untouched are allocated after recovery (first: %d)%s" where (List.length !leaked)
+         (List.hd !leaked)
+         (if inside then " [all inside the huge frame of an in-flight partial free: stale-split fill]" else ""))
+  end;
   (match kv rest "stats" with
   | Some s -> (
       match String.split_on_char ',' s with
